@@ -416,7 +416,17 @@ class Flow:
             else:
                 types = hd.type.elts if isinstance(hd.type, ast.Tuple) else [hd.type]
                 names = []
+                # a module-level tuple of exception classes used as the handler's type
+                expanded = []
                 for t in types:
+                    tt = t
+                    if isinstance(tt, ast.Name) and self.resolve_exc(tt) is None:
+                        v = self.func.module.consts.get(tt.id)
+                        if isinstance(v, ast.Tuple) and self.func.module.const_multi.get(tt.id, 0) == 1:
+                            expanded.extend(v.elts)
+                            continue
+                    expanded.append(tt)
+                for t in expanded:
                     r = self.resolve_exc(t)
                     if r is None:
                         raise AnalysisError(f"{self.func.loc(t)}: cannot resolve exception class {norm(t)}")
